@@ -36,6 +36,20 @@ CHECKS["C04"] = dict(
     note="Trusted: event-driven VHDL-subset semantics (sensitivity lists honoured), R, z3. Arbitrary pre-state is a superset of reachable states; 'behaves as after power-up' follows from state equality on resettable objects plus the C01-style equivalence proved for the same program.",
     technique="one-step symbolic reset scenarios from arbitrary paired states (z3 over interpreted VHDL)",
 )
+CHECKS["C03"] = dict(
+    category="translation_validation",
+    text="seqbody family (signals, variables, slices/bits, push targets, locally constructed objects, run-time indexed arrays, if/elif/else, match, for-break/else, helper functions returning from branches, always expressions): for every accepted program z3 proves that one activation of the emitted process from an ARBITRARY pre-state equals the reference interpreter of the Python source for all inputs (identity relation on declared state => all input histories); concurrent cells prove continuous driving.",
+    design_ref="DESIGN.md 3/C03, 2.2, 2.6",
+    note="Trusted: VHDL-subset semantics, reference interpreter vfw/refseq.py, z3. Programs enumerated (core + seeded), pre-state and inputs symbolic.",
+    technique="one-step inductive equivalence (z3) of interpreted emitted VHDL vs reference interpreter of the source",
+)
+CHECKS["C08"] = dict(
+    category="translation_validation",
+    text="(1) 2-safety query per control state of every emitted process of the def/use, seqbody and coro families: two activations with equal declared state and inputs but different arbitrary contents of all compiler temporaries must agree (sat = output depends on a stale intermediate, replayed concretely); (2) programs whose reference interpretation meets a Python-level intermediate that is unbound on some path must be rejected by the compiler.",
+    design_ref="DESIGN.md 3/C08, 2.6 noninterference",
+    note="Trusted: VHDL-subset semantics, reference interpreter, z3. Storage inference for intermediates = dependence on pre-activation contents, decided for all inputs per enumerated program.",
+    technique="2-safety (noninterference) SMT query over interpreted emitted VHDL + must-reject oracle from the reference interpreter",
+)
 NA = {}
 manifest = {
     "version": 1,
